@@ -20,6 +20,7 @@ type B struct {
 	emit func(line, out string)
 	Bad  []string // answers other than "ok…" to world-building ops
 
+	Hit      func(string)     // histogram counter of the run (may be nil)
 	LastDate int64            // the latest claim date used so far
 	declared map[string]int64 // Corpus.PermanodeTime as last declared to the model
 }
@@ -49,11 +50,28 @@ func (b *B) PN(key string) string {
 }
 
 func (b *B) Claim(pn, kind, attr, val string, date int64) string {
-	tb := b.w.bClaim(blob.MustParse(pn), kind, attr, val, date)
+	return b.ClaimBy(false, pn, kind, attr, val, date)
+}
+
+// ClaimBy: other = signed by the second identity, not by the owner of the search handler.
+func (b *B) ClaimBy(other bool, pn, kind, attr, val string, date int64) string {
+	tb := b.w.bClaim(blob.MustParse(pn), kind, attr, val, date, other)
 	ref := tb.BlobRef().String()
-	b.do(fmt.Sprintf("cl %s %d %s %s %s %s %d", ref, len(tb.Contents), pn, kind, hx(attr), hx(val), date))
+	who := "own"
+	if other {
+		who = "other"
+	}
+	b.do(fmt.Sprintf("cl %s %d %s %s %s %s %d %s", ref, len(tb.Contents), pn, kind, hx(attr), hx(val), date, who))
 	b.MW.addBlob(ref, "claim", len(tb.Contents))
-	b.MW.Claims = append(b.MW.Claims, MClaim{PN: pn, Kind: kind, Attr: attr, Val: val, Date: date})
+	b.MW.insertClaim(MClaim{PN: pn, Kind: kind, Attr: attr, Val: val, Date: date, Other: other})
+	if b.Hit != nil {
+		if other {
+			b.Hit("claim:by-second-signer")
+		}
+		if date < b.LastDate {
+			b.Hit("claim:dated-before-earlier-arrivals")
+		}
+	}
 	if date > b.LastDate {
 		b.LastDate = date
 	}
@@ -67,7 +85,7 @@ func (b *B) Delete(pn string, date int64) string {
 	b.MW.addBlob(ref, "claim", len(tb.Contents))
 	b.MW.Deleted = append(b.MW.Deleted, pn)
 	// the delete claim is one of the permanode's claims too (modtime; known to the corpus)
-	b.MW.Claims = append(b.MW.Claims, MClaim{PN: pn, Kind: "delete", Date: date})
+	b.MW.insertClaim(MClaim{PN: pn, Kind: "delete", Date: date})
 	if date > b.LastDate {
 		b.LastDate = date
 	}
